@@ -419,7 +419,12 @@ def free_running(ctx, pts, reps):
         for _ in range(reps):
             if n_bad >= 3:
                 break
-            src, fq, rd, pred = build(gp, None, real_queue=True)
+            try:
+                src, fq, rd, pred = build(gp, None, real_queue=True)
+            except Exception as e:  # the real reader's constructor raised on a grid point of the alphabet
+                n_bad += 1
+                ctx.violation({"gp": gp, "free_running": True}, f"constructing the reader raised {type(e).__name__}: {e} for {gp}")
+                continue
             res = {}
 
             def body():
